@@ -133,7 +133,7 @@ def importfrom_table(prog: Program, ctx: Ctx, rule: str) -> None:
     ctx.expect_min(rule, n_rows, 150)
 
 
-def wildcard_table(prog: Program, ctx: Ctx, rule: str) -> None:
+def wildcard_table(prog: Program, ctx: Ctx, rule: str, *, importers: bool = False) -> None:
     """`from m import *` decision table: GriffeLoader.expand_wildcards evaluated end to end on small packages built with the models' constructors.
 
     At run time the statement rebinds every public name of m at its own line: it displaces an earlier binding of the same name (a definition, an
@@ -217,4 +217,25 @@ def wildcard_table(prog: Program, ctx: Ctx, rule: str) -> None:
         n_rows += 1
         ctx.ob(rule, f"wildcard|two star imports|a@{line_a}|c@{line_c}", got == want,
                f"`from pkg.a import *` (line {line_a}) and `from pkg.c import *` (line {line_c}) in pkg.b, both exposing x: members of pkg.b {got}; at run time {want}", where(xw))
+    # a name defined in pkg.b, imported from there by pkg.c (and already looked at: aliases resolve on first use), then re-bound in pkg.b by a later star
+    # import: what pkg.c imported is the re-bound object (the import runs after pkg.b's body)
+    for existing in (("attribute", "explicitly imported name") if importers else ()):  # (decided once, under C05)
+        coll, pkg, a, b, c = world()
+        if existing == "attribute":
+            setm(b, "y", new("Attribute", "y", lineno=1, endlineno=1))
+        else:
+            setm(b, "y", new("Alias", "y", "pkg.c.w", lineno=1, endlineno=1))
+        setm(b, "pkg/a/*", new("Alias", "pkg/a/*", "pkg.a", lineno=3, endlineno=3))
+        imported = new("Alias", "yy", "pkg.b.y", lineno=5, endlineno=5)
+        setm(c, "yy", imported)
+        try:
+            first = itw.getattr(itw.getattr(imported, "final_target"), "path")
+            run_and_describe(coll, pkg, b)
+            after: object = itw.getattr(itw.getattr(imported, "final_target"), "path")
+        except Raised as r:
+            first, after = "?", f"raises {r.exc}"
+        n_rows += 1
+        ctx.ob(rule, f"wildcard|importer of a name re-bound by a later star import|existing={existing}", after == "pkg.a.y",
+               f"pkg.c does `from pkg.b import y as yy` (resolved to {first} before the expansion); pkg.b defines y as {existing} on line 1 and star-imports pkg.a "
+               f"(which defines y) on line 3: pkg.c.yy now leads to {after}; at run time it is pkg.a.y", where(xw))
     ctx.expect_min(rule, n_rows, 25)
